@@ -389,7 +389,29 @@ def u_fspoll(p):
         p.add("R2", "R2")
 
 
-UNITS = [(u_simple, 6), (u_proc, 1), (u_tcp, 4), (u_pipe, 3), (u_udp, 3), (u_signal, 2), (u_fspoll, 2)]
+def u_tty(p):
+    """tty handles on pty slaves: uv_tty_set_mode NORMAL/RAW/IO in any order, closed in any mode; two alive at
+    once (the process-wide reset registration belongs to the first that went raw)."""
+    rng = p.rng
+    hs = [p.init("Y") for _ in range(rng.choice([1, 1, 2]))]
+    for _ in range(rng.randint(0, 5)):
+        h = rng.choice(hs)
+        p.add("M%d,%d" % (h, rng.choice([0, 1, 1, 2])))
+    h = rng.choice(hs)
+    r = rng.random()
+    if r < 0.3:
+        p.add("s%d" % h, "v%d" % h)
+        p.hooks.append("H%d" % h)
+    elif r < 0.6:
+        for k in range(rng.randint(1, 2)):
+            q = p.req()
+            p.add("w%d,%d,%d" % (h, q, 64 if k == 0 else 1))
+            p.hooks.append("Q%d" % q)
+    if rng.random() < 0.5:
+        p.on(rng.choice(p.hooks) if p.hooks else "K%d" % hs[0], "M%d,%d" % (rng.choice(hs), rng.choice([0, 1])))
+
+
+UNITS = [(u_tty, 2), (u_simple, 6), (u_proc, 1), (u_tcp, 4), (u_pipe, 3), (u_udp, 3), (u_signal, 2), (u_fspoll, 2)]
 
 
 def gen_case(rng, liveness=False):
@@ -741,7 +763,9 @@ def monitor(case, line):
         elif c == "L":
             h, res = tok[1:].split(",")
             name = {"0": "descriptor", "1": "accepted descriptor", "3": "bound socket file", "4": "inotify watch",
-                    "5": "epoll registration", "6": "signal disposition"}.get(res, res)
+                    "5": "epoll registration", "6": "signal disposition",
+                    "7": "process-wide uv_tty_reset_mode() registration (descriptor number remembered after close: "
+                         "uv_tty_reset_mode() fails or rewrites the termios of whatever reuses the number)"}.get(res, res)
             return "%s of handle %s still present at its close_cb" % (name, h)
         elif tok == ".Y0":
             owed = sorted(closing - closed)
@@ -844,6 +868,10 @@ def main():
         chk.cov["signal_requeues_observed"] = sum(len(re.findall(r"g\d+,[1-9]", l)) for l in impl)
         chk.cov["fs_poll_stat_completions_observed"] = sum(e.count(" D") for e in exp)
         chk.cov["aborted_runs"] = sum(1 for l in impl if "ABORT" in l)
+        chk.cov["tty_handles_on_a_pty"] = sum(1 for c, l in zip(cases, impl) for t in c.split(";")[0].split()
+                                              if t == "IY") - sum(l.count(".nopty") for l in impl)
+        chk.cov["tty_skipped_no_pty"] = sum(l.count(".nopty") for l in impl)
+        chk.cov["tty_reset_checks_after_close"] = sum(l.count(" .tr") for l in impl)
 
     # ---- the five simple kinds against Model/LoopCore.v, same library
     m = 20000 if thorough else 400
